@@ -264,9 +264,8 @@ func ext۰strings۰ToLower(fr *frame, args []value) value {
 }
 
 func ext۰runtime۰GOMAXPROCS(fr *frame, args []value) value {
-	// Ignore args[0]; don't let the interpreted program
-	// set the interpreter's GOMAXPROCS!
-	return runtime.GOMAXPROCS(0)
+	// the modelled machine has one processor (the worst case for schedule-dependent waits); never touch the host's setting
+	return 1
 }
 
 func ext۰runtime۰Goexit(fr *frame, args []value) value {
